@@ -54,6 +54,8 @@ instance : Mul Q4 := ⟨fun z w => ⟨z.re * w.re - z.im * w.im, z.re * w.im + z
 def conj (z : Q4) : Q4 := ⟨z.re, -z.im⟩
 /-- `(a + b r) + (c + d r) i` -/
 def mk4 (a b c d : Rat) : Q4 := ⟨⟨a, b⟩, ⟨c, d⟩⟩
+/-- integer components -/
+def q (a b c d : Int) : Q4 := mk4 a b c d
 end Q4
 
 /-! ### 6×6 matrices over `Q4` as lists of rows -/
@@ -72,6 +74,9 @@ def QMat.mul (A B : QMat) : QMat :=
 
 /-- conjugate transpose (6×6) -/
 def QMat.conjT (A : QMat) : QMat := range6.map fun i => range6.map fun j => (A.entry j i).conj
+
+/-- the 6×6 block of a table (equal to the table iff it is exactly 6×6) -/
+def QMat.norm6 (A : QMat) : QMat := range6.map fun i => range6.map fun j => A.entry i j
 
 def QMat.ident : QMat := range6.map fun i => range6.map fun j => if i = j then 1 else 0
 
